@@ -531,9 +531,9 @@ RA(np, rd, d) ==
         \* RouterAdvertisement.marshal yields the body only; the send function prepends the ICMPv6 header (fix 5720c60)
     IN IF np = 0 THEN [clean |-> TRUE, exp |-> Res(-1, "any", NoFrame, {}), mech |-> Res(0, "nil", NoFrame, {})]
        \* 46 prefix options (32 bytes each) do not fit one Ethernet frame: the caller must get an error and no frame.
-       \* icmp6SendPacket drops the error of IP6.AppendPayload and goes on with a nil packet (layer_icmp.go:478): panic
+       \* icmp6SendPacket returns the error of IP6.AppendPayload (it dropped it and panicked on the nil packet until fix 1b8de3f)
        ELSE IF np > 3 THEN [clean |-> TRUE, exp |-> Res(0, "ErrPayloadTooBig", NoFrame, {}),
-                            mech |-> Res(0, "panic", NoFrame, {KF("err", "KF_ICMP6SendTooBigPanics")})]
+                            mech |-> Res(0, "ErrPayloadTooBig", NoFrame, {})]
        ELSE [clean |-> TRUE, exp |-> Res(1, "nil", Relax(ideal), {}),
              mech |-> Res(1, "nil", ideal, {})]
 
